@@ -7,7 +7,7 @@ import numpy as np
 from hypothesis import strategies as st
 
 from vlib import gens, hooks
-from vlib.core import HarnessError, Prop, Sub, Violation, calling, check
+from vlib.core import unchanged, HarnessError, Prop, Sub, Violation, calling, check
 from vlib.systems import Sys, matrix_system
 
 
@@ -52,7 +52,8 @@ def run(case, sv, B):
         warnings.simplefilter("ignore")
         if case["entry"] == "estimator":
             est = sv.make_estimator(w=w)
-            return est.fit_decomposition(B, **kw)
+            with unchanged("decomp", estimator=est):
+                return est.fit_decomposition(B, **kw)
         from dreye.api.optimize.lsq_linear import lsq_linear_decomposition
 
         return lsq_linear_decomposition(sv.A, B, W=w, return_pred=True, **sv.kwargs(), **kw)
